@@ -86,7 +86,21 @@ func (w *world) genComposite(d *txDesc) *types.MutableTransaction {
 	n := 1 + c.Intn(3)
 	for i := 0; i < n; i++ {
 		b := vm.NewParamsBuilder(new(bytes.Buffer))
-		switch k := c.Intn(12); {
+		switch k := c.Intn(14); {
+		case k >= 12: // the payer's own ONG leaves: all but 0 / fee-1 / fee / fee+1
+			bal := w.ongOf(d.Payer)
+			if d.Price == 0 || d.Price > 5000 {
+				d.Price = []uint64{1, 500, 2500}[c.Intn(3)]
+			}
+			fee := 20000 * d.Price
+			left := []uint64{0, fee - 1, fee, fee + 1}[c.Intn(4)]
+			amt := uint64(0)
+			if bal > left {
+				amt = bal - left
+			}
+			mech := drainMechanisms[c.Intn(len(drainMechanisms))]
+			steps = append(steps, "drain:"+mech)
+			script = append(script, w.drainScript(mech, payer, other, amt)...)
 		case k < 2: // native write from NeoVM
 			steps = append(steps, "ong-approve")
 			script = append(script, native(ledgerkit.OngAddr, "approve", &ont.TransferState{From: payer, To: other, Value: 1 + uint64(c.Intn(1000))})...)
